@@ -12,8 +12,8 @@ from common import Infra, run_tlc, Scratch, log
 
 # which P predicates decide which property (PipeProps.Verdicts)
 PREDS = {
-    "C05": ["Prefix", "SeqExact", "FoldRes", "Complete", "TakeBound", "CallsPrefix", "CallsComplete", "Settle1"],
-    "C06": ["NoPanic", "Prefix", "FoldRes", "Settle1", "Settle2", "LiftCloses", "GenExact", "GenSettle", "JoinPerInput", "JoinNothingInvented"],
+    "C05": ["PipePrefix", "PipeComplete", "PipeSettle", "Prefix", "SeqExact", "FoldRes", "Complete", "TakeBound", "CallsPrefix", "CallsComplete", "Settle1"],
+    "C06": ["PipePrefix", "NoPanic", "Prefix", "FoldRes", "Settle1", "Settle2", "LiftCloses", "GenExact", "GenSettle", "JoinPerInput", "JoinNothingInvented"],
     "C07": ["Prefix", "Complete", "CallsPrefix", "CallsComplete", "Settle1", "LiftCloses", "NoPanic", "GenExact", "GenSettle"],
     "C08": ["NeverBlocksSender", "Prefix", "LosslessAfterCancel", "Complete", "Settle1", "NewSettle", "NoPanic"],
     "C09": ["Prefix", "Complete", "CallsPrefix", "CallsComplete", "NoPanic", "Settle1", "Settle2"],
@@ -298,11 +298,13 @@ def check(run, replay=None):
         if pid == "C05":
             scheds += [dict(s, epilogue="drain") for s in g]
             scheds += rand_scheds(rnd, rng, nrand, ["drain", "closewait"], weights=dict(send=4, close=1, recv=4, cancel=0, release=4, advance=0, burst=2))
+            scheds += rand_scheds(pipeline_cfgs(rng, 200 if th else 40), rng, 3, ["drain", "closewait", "drain"], weights=dict(send=4, close=1, recv=4, cancel=0, release=0, advance=1, burst=1))
         elif pid == "C06":
             for s in g:
                 scheds.append(dict(s, epilogue="cancel"))
             scheds += [dict(s, epilogue="closewait") for s in g if rng.random() < 0.25]
             scheds += rand_scheds(rnd + other_cfgs("C06", th, rng), rng, nrand, ["cancel", "closewait", "drain"])
+            scheds += rand_scheds(pipeline_cfgs(rng, 200 if th else 40), rng, 3, ["cancel", "cancel", "closewait"])
         elif pid == "C07":
             scheds += [dict(s, epilogue="drain") for s in g]
             scheds += rand_scheds(rnd + other_cfgs("C07", th, rng), rng, nrand, ["drain", "closewait"], weights=dict(send=4, close=1, recv=4, cancel=0, release=4, advance=1, burst=2))
@@ -431,6 +433,49 @@ def cmd_str(c):
     elif s == "advance":
         s += " %d" % c["d"]
     return s
+
+
+def pipeline_cfgs(rng, n):
+    """Spec growth: pipelines of 2-4 stages (Map, FMap, Filter, Take, TakeWhile, Throttling, Fold last; sequential or forked)."""
+    out = []
+    for _ in range(n):
+        k = rng.randint(2, 4)
+        vals = [1, 2, 3, 4, 5, 6]
+        stages, mono, par_seen = [], True, False
+        cur = set(vals)
+        for i in range(k):
+            last = i == k - 1
+            kinds = ["Map", "Filter", "FMap", "Take", "TakeWhile"] + (["Fold"] if last else []) + (["Throttling"] if rng.random() < 0.2 else [])
+            if par_seen:
+                kinds = [x for x in kinds if x not in ("Take", "TakeWhile")]      # which elements survive would depend on the race
+            kind = rng.choice(kinds)
+            forked = kind in ("Map", "Filter", "FMap", "Fold") and rng.random() < 0.3
+            par = rng.randint(2, 3) if forked else 1
+            st = dict(kind=kind, forked=forked, par=par, mode="pure")
+            dom = sorted(cur)
+            if kind == "Map":
+                st["mode"] = rng.choice(["pure", "try"])
+                st["fail"] = sorted(rng.sample(dom, min(len(dom), rng.randint(0, 2)))) if st["mode"] == "try" else []
+                cur = {10 * x for x in cur if x not in st["fail"]}
+            elif kind == "FMap":
+                st["mode"] = "try"
+                st["fail"] = sorted(rng.sample(dom, min(len(dom), rng.randint(0, 1))))
+                cur = {y for x in cur if x not in st["fail"] for y in ([10 * x, 10 * x + 1] if x % 2 == 1 else [10 * x])}
+            elif kind in ("Filter", "TakeWhile"):
+                st["pred"] = sorted(rng.sample(dom, rng.randint(0, len(dom)))) if dom else []
+                cur = {x for x in cur if x in st["pred"]}
+            elif kind == "Take":
+                st["n"] = rng.randint(0, 4)
+            elif kind == "Fold":
+                st["monoid"] = "sum" if par_seen or forked else rng.choice(["sum", "digits9"])
+            elif kind == "Throttling":
+                st["ops"], st["interval"] = rng.randint(1, 2), rng.randint(1, 2)
+            par_seen = par_seen or (forked and par > 1)
+            if max(cur, default=0) > 10 ** 6:
+                break
+            stages.append(st)
+        out.append(C(kind="Pipeline", cap=rng.randint(0, 2), inputs=[vals[: rng.randint(0, 6)]], stages=stages))
+    return out
 
 
 def rand_scheds(cfgs, rng, per_cfg, epilogues, weights=None):
